@@ -86,6 +86,14 @@ func (h *H) ask(line string) string {
 	}
 	ch := make(chan ans, 1)
 	drv := h.drv
+	if os.Getenv("C07_TRACE") != "" {
+		t0 := time.Now()
+		defer func() {
+			if d := time.Since(t0); d > 300*time.Millisecond {
+				fmt.Fprintf(os.Stderr, "slow ask %.1fs: %s (%d bytes)\n", d.Seconds(), line[:min(len(line), 40)], len(line))
+			}
+		}()
+	}
 	go func() {
 		o, e := drv.Ask(line)
 		ch <- ans{o, e}
@@ -185,6 +193,9 @@ func main() {
 	for sh := 0; sh < 2; sh++ {
 		tasks = append(tasks, task{fmt.Sprintf("rewriters/%d", sh), func(h *H) { h.phaseRewriters(sh, 2) }})
 	}
+	for sh := 0; sh < 4; sh++ {
+		tasks = append(tasks, task{fmt.Sprintf("oldlayout/%d", sh), func(h *H) { h.phaseOldLayout(sh, 4) }})
+	}
 	tasks = append(tasks,
 		task{"utf8", func(h *H) { h.phaseUTF8() }}, task{"limits/0", func(h *H) { h.phaseLimits(0, 14) }})
 	for sh := 1; sh < 14; sh++ {
@@ -194,6 +205,23 @@ func main() {
 	timings := map[string]float64{}
 	var wg sync.WaitGroup
 	sem := make(chan struct{}, 24)
+	// C07_ONLY=phase,phase… restricts the run to those phases (developer aid; the -race twin of the
+	// thorough tier uses it): the fixed-size tie checks below are skipped then
+	onlyPhases := map[string]bool{}
+	for _, p := range strings.Split(os.Getenv("C07_ONLY"), ",") {
+		if p != "" {
+			onlyPhases[p] = true
+		}
+	}
+	if len(onlyPhases) > 0 {
+		var keep []task
+		for _, tk := range tasks {
+			if onlyPhases[strings.SplitN(tk.name, "/", 2)[0]] {
+				keep = append(keep, tk)
+			}
+		}
+		tasks = keep
+	}
 	for _, tk := range tasks {
 		wg.Add(1)
 		go func() {
@@ -224,7 +252,7 @@ func main() {
 	}
 	wg.Wait()
 	res.SetExtra("phase_seconds", timings)
-	if h.only == nil {
+	if h.only == nil && len(onlyPhases) == 0 {
 		// ties must not silently disappear: minimum hit counts of the comparisons that have a fixed size
 		need := map[string]int{"projection-table:compared": 9, "decoder-utf8-mode:" + h.decoderMode(): 1}
 		for _, a := range []string{"GetBlockHeaderHashByNumber", "GetGlobalStateRootByBlockNumber", "GetBlockTransactionCountByNumber",
